@@ -36,3 +36,35 @@ C16_TAINT_TRIAGE = {
     'midnight_aggregator::inner_product_argument::inner_product|assert-on-checked|assert_eq!(!(*left_val == *right_val))|integer read from proof':
         'called on the two halves / equally resized vectors inside ipa_verify: equal lengths follow from the power-of-two resize in the caller',
 }
+
+# ZKIR operation pairs whose off-circuit side is a method rather than `<op>_offcircuit`
+C18_MANUAL_PAIRS = [
+    ('midnight_zkir::instructions::operations::into_bytes::<impl midnight_zkir::types::IrValue>::into_bytes',
+     'midnight_zkir::instructions::operations::into_bytes::into_bytes_incircuit'),
+    ('midnight_zkir::instructions::operations::from_bytes::<impl midnight_zkir::types::IrValue>::from_bytes',
+     'midnight_zkir::instructions::operations::from_bytes::from_bytes_incircuit'),
+    ('midnight_zkir::instructions::operations::publish::<impl midnight_zkir::types::CircuitValue>::as_public_input',
+     'midnight_zkir::instructions::operations::publish::publish_incircuit'),
+]
+
+C18_DOMAIN_SPECIAL = {
+    'inner_product_incircuit': ('same-as-mul', 'off-circuit types every product through mul_offcircuit; in-circuit dispatches on the first pair'),
+    'load_incircuit': ('get_t', 'both Load arms fetch every witness value through get_t(.., t, ..) which applies IrValue::check_type(t) before either implementation runs'),
+}
+C18_DELEGATION_EXEMPT = {
+    'Publish': 'off-circuit publishing records the value; its encoding happens in format_instance via CircuitValue::as_public_input, '
+               'which R1 shows to have an arm for all six types, as has publish_incircuit',
+}
+C18_PARTIAL_EXEMPT_FNS = set()
+C18_PARTIAL_EXEMPT_SITES = {
+    'utils::big_to_fe:BigUint %': 'the divisor is utils::modulus::<F>(), the (non-zero) field modulus parsed from PrimeField::MODULUS',
+}
+
+C18_TAINT_TRIAGE = {
+    'midnight_proofs::circuit::value::Value::transpose_vec|assert|assert_eq!(!(*left_val == *right_val))|IrType::Bytes.0':
+        'only reached from load_incircuit with values that get_t already checked against t = Bytes(n) (IrValue::check_type compares the length with n)',
+    'midnight_zkir::instructions::operations::from_bytes::from_bytes_incircuit|index-untrusted-len|alloc::vec::Vec[usize]|IrType::Bytes.0':
+        'load_incircuit(.., t = JubjubPoint, &[one value]) returns exactly one value (the Bytes arm, where the label originates, is not taken)',
+    'midnight_zkir::utils::insert_many|assert|assert_eq!(!(*left_val == *right_val))|IrType::Bytes.0':
+        'Load produces one value per output name by construction (chunks(n) of n * outputs.len() bytes); all other operations have a fixed output arity pinned by C18.R2',
+}
